@@ -145,7 +145,7 @@ def run(c) -> CaseResult:
         return res
     # ---- (2) same function as the hand conversion (outputs and all gradients)
     fr = prep(inputs)
-    yr = dsl.evaluate(prog, P, fr, dsl.Unit())
+    yr = dsl.evaluate(prog, dsl.named_tensors(um), fr, dsl.Unit())
     gr = grads(yr, [fr[k] for k in FLOAT_INPUTS if k in fr] + list(P.values()))
     if not close(y.detach(), yr.detach()):
         res.fail("C16.value", f"[{ftag}] unit_scale(module) returned {y.item():.7g}, the User-Guide hand conversion gives {yr.item():.7g}\n{m._verif_source}")
